@@ -929,6 +929,11 @@ func init() {
 		Eth: func(w *e.World, st *e.Step) (*e.Account, e.EthArgs, bool) {
 			a, b := w.Acct(st.A), w.Acct(st.B)
 			args := e.EthArgs{Type: 2, Gas: 300_000}
+			// while London is scheduled in the future dynamic-fee txs are refused by every
+			// node alike; a legacy tx still reaches the EVM
+			if lb := w.App().EvmKeeper.GetParams(w.Ctx()).ChainConfig.LondonBlock; lb != nil && lb.Int64() > w.Height {
+				args.Type = 0
+			}
 			switch st.NArg(0) {
 			case 0: // bech32 precompile
 				to := common.HexToAddress("0x0000000000000000000000000000000000000400")
